@@ -16,8 +16,12 @@ utf-16-le, utf-16-be, utf-32, utf-32-le, utf-32-be, utf-8-sig, cp1252).  This fi
 fact that the writer accepted the program, for the environment `Codecs.env dumps loadsText
 loadsBytes`, `Codecs.cfg` (the BOM table of the repository):
 
-* `JsonLaws dumps loadsText` (Lemmas/ConcreteRun.lean) — three facts about `json.dumps` /
-  `json.loads` on dicts — is the only hypothesis about the environment that is left;
+* `JsonLaws Dom dumps loadsText` (Lemmas/ConcreteRun.lean) — three facts about `json.dumps` /
+  `json.loads` on the dicts of a domain `Dom` — is the only hypothesis about the environment that
+  is left.  The laws are false of CPython for some values of the model's `Json` (a string in which
+  a high surrogate is directly followed by a low one comes back as one astral character; a list of
+  items with duplicate or unsorted keys is no Python dict), hence the domain: for CPython `Dom` is
+  `Json.Representable` (Model/JsonDom.lean);
 * `C01_call_laws_of_accepted`, `C01_laws_of_accepted`: `CallLaws` / `ProgramLaws` (and
   `ProgramFaithfulFrom`) hold for every accepted call / program;
 * `C01_run_concrete`: the theorem.  The contents read back are `calls.map contentOfCall`, the
@@ -27,13 +31,15 @@ loadsBytes`, `Codecs.cfg` (the BOM table of the repository):
   evaluation as well; `C01_run_concrete_instance2`: the same shape of program under utf-32 (BOM),
   utf-8-sig, windows-1252, utf-32-be.
 
-## The two side hypotheses
+## The side hypotheses
 
 * `hsize`: the bytes written fit one `fp.read` (`≤ Reader.maxRead = 2⁶³ − 1`; the reader raises
   `OverflowError` on a larger `length`).
 * `DictArgs calls`: every `Arg.dict j` argument is a JSON object.  `Arg.dict` stands for a Python
   `dict`, but the type allows `.dict (.int 1)`; the model writer dumps it and the reader rejects
   what `json.loads` gives back (`C01_dict_arg_artefact`).  No Python program can do that.
+* `DictsIn Dom calls`: every `Arg.dict j` argument lies in the domain `Dom` on which `JsonLaws` is
+  assumed.  (With `Dom := fun _ => True`, laws assumed of every dict, it is `dictsIn_true`.)
 
 ## Corners that were checked (no counterexample: the laws are *derived*, for all programs)
 
@@ -53,7 +59,7 @@ namespace Diffx.C01
 open Diffx Diffx.RunRT Diffx.Codecs
 
 section Concrete
-variable (dumps : Json → EnvR Text) (loadsText : Text → EnvR Json) (loadsBytes : Bytes → EnvR Json)
+variable {Dom : Json → Prop} (dumps : Json → EnvR Text) (loadsText : Text → EnvR Json) (loadsBytes : Bytes → EnvR Json)
 
 /-- **The laws of one call, from acceptance.**  In any writer state, for any call that the writer
 accepts (what it wrote fitting `fp.read`, a `dict` argument being a JSON object): the
@@ -61,31 +67,31 @@ accepts (what it wrote fitting `fp.read`, a `dict` argument being a JSON object)
 `TextLaws` built from the codec proofs; `MetaLaws` with the reader's newline guess (`hguess`)
 and `json.loads` (`hloads`, `hobj`) from `JsonLaws`; `DiffCallLaws` with `DiffLaws` (the writer's
 `PreparedWith` and the reader's `hencR` / `hbomR` name the same newline bytes). -/
-theorem C01_call_laws_of_accepted (hjson : JsonLaws dumps loadsText) (st : Writer.St) (c : Writer.Call)
+theorem C01_call_laws_of_accepted (hjson : JsonLaws Dom dumps loadsText) (st : Writer.St) (c : Writer.Call)
     (hok : (Writer.step (Codecs.env dumps loadsText loadsBytes) Codecs.cfg st c).2 = .ok)
-    (hwf : dictArgOk c = true)
+    (hwf : dictArgOk c = true) (hdom : dictArgIn Dom c)
     (hsz : (Writer.step (Codecs.env dumps loadsText loadsBytes) Codecs.cfg st c).1.out.length ≤ Reader.maxRead) :
     Nonempty (CallLaws (Codecs.env dumps loadsText loadsBytes) Codecs.cfg st c) :=
-  callLaws_exist dumps loadsText loadsBytes hjson st c hok hwf hsz
+  callLaws_exist dumps loadsText loadsBytes hjson st c hok hwf hdom hsz
 
 /-- **The laws of a program, from acceptance**, and their faithfulness. -/
-theorem C01_laws_of_accepted (hjson : JsonLaws dumps loadsText) (enc : Name) (calls : List Writer.Call)
+theorem C01_laws_of_accepted (hjson : JsonLaws Dom dumps loadsText) (enc : Name) (calls : List Writer.Call)
     (hok : ∀ r ∈ (Writer.run (Codecs.env dumps loadsText loadsBytes) Codecs.cfg (some enc) t!"1.0" calls).2, r = .ok)
-    (hwf : DictArgs calls)
+    (hwf : DictArgs calls) (hdom : DictsIn Dom calls)
     (hsize : (Writer.run (Codecs.env dumps loadsText loadsBytes) Codecs.cfg (some enc) t!"1.0" calls).1.out.length
       ≤ Reader.maxRead) :
     ∃ laws : ProgramLaws (Codecs.env dumps loadsText loadsBytes) Codecs.cfg enc calls,
       ProgramFaithfulFrom (Codecs.env dumps loadsText loadsBytes) Codecs.cfg
         (Writer.init (some enc) t!"1.0").1 calls laws.calls :=
-  laws_of_accepted dumps loadsText loadsBytes hjson enc calls hok hwf hsize
+  laws_of_accepted dumps loadsText loadsBytes hjson enc calls hok hwf hdom hsize
 
 /-- … as data (the choice is immaterial: `C01_written_any`, `C01_faithful_any`) -/
-noncomputable def lawsOfAccepted (hjson : JsonLaws dumps loadsText) (enc : Name) (calls : List Writer.Call)
+noncomputable def lawsOfAccepted (hjson : JsonLaws Dom dumps loadsText) (enc : Name) (calls : List Writer.Call)
     (hok : ∀ r ∈ (Writer.run (Codecs.env dumps loadsText loadsBytes) Codecs.cfg (some enc) t!"1.0" calls).2, r = .ok)
-    (hwf : DictArgs calls)
+    (hwf : DictArgs calls) (hdom : DictsIn Dom calls)
     (hsize : (Writer.run (Codecs.env dumps loadsText loadsBytes) Codecs.cfg (some enc) t!"1.0" calls).1.out.length
       ≤ Reader.maxRead) : ProgramLaws (Codecs.env dumps loadsText loadsBytes) Codecs.cfg enc calls :=
-  Classical.choose (C01_laws_of_accepted dumps loadsText loadsBytes hjson enc calls hok hwf hsize)
+  Classical.choose (C01_laws_of_accepted dumps loadsText loadsBytes hjson enc calls hok hwf hdom hsize)
 
 /-- whatever laws are given for the calls of a program of the concrete environment, the contents
 they determine are `contentOfCall` of the calls -/
@@ -95,25 +101,26 @@ theorem C01_written_any (st : Writer.St) (calls : List Writer.Call)
   writtenFrom_eq dumps loadsText loadsBytes calls st Ls
 
 /-- … and they are faithful -/
-theorem C01_faithful_any (hjson : JsonLaws dumps loadsText) (st : Writer.St) (calls : List Writer.Call)
-    (hwf : DictArgs calls) (Ls : ProgramLawsFrom (Codecs.env dumps loadsText loadsBytes) Codecs.cfg st calls) :
+theorem C01_faithful_any (hjson : JsonLaws Dom dumps loadsText) (st : Writer.St) (calls : List Writer.Call)
+    (hwf : DictArgs calls) (hdom : DictsIn Dom calls)
+    (Ls : ProgramLawsFrom (Codecs.env dumps loadsText loadsBytes) Codecs.cfg st calls) :
     ProgramFaithfulFrom (Codecs.env dumps loadsText loadsBytes) Codecs.cfg st calls Ls :=
-  programFaithful_any dumps loadsText loadsBytes hjson calls st hwf Ls
+  programFaithful_any dumps loadsText loadsBytes hjson calls st hwf hdom Ls
 
 /-- **The whole-run round trip for the concrete codecs.**  For `Codecs.env dumps loadsText loadsBytes`
-(JSON a parameter subject to `JsonLaws`, nothing assumed of `loadsBytes`) and the BOM table of
+(JSON a parameter subject to `JsonLaws Dom`, nothing assumed of `loadsBytes`) and the BOM table of
 the repository: for every constructor encoding and every list of public calls that the writer
-accepts, the reader — with any positive block size — run on the bytes written yields records and
+accepts and whose `dict` arguments lie in `Dom`, the reader — with any positive block size — run on the bytes written yields records and
 ends normally; there is one record per call after the main one; their contents are, in order,
 `.container` for the main section and `contentOfCall c` for every call `c` (the text written with
 its final line ending appended when missing, the dict, the diff bytes with their newline
 appended when missing — functions of the call's arguments); their section ids are `#diffx` and
 `secIds 1 calls`; and the records are the `expectedRecords` (lines, options) of `C01_run` for some
 laws. -/
-theorem C01_run_concrete (hjson : JsonLaws dumps loadsText) (chunk : Nat) (hc : 0 < chunk)
+theorem C01_run_concrete (hjson : JsonLaws Dom dumps loadsText) (chunk : Nat) (hc : 0 < chunk)
     (enc : Name) (calls : List Writer.Call)
     (hok : ∀ r ∈ (Writer.run (Codecs.env dumps loadsText loadsBytes) Codecs.cfg (some enc) t!"1.0" calls).2, r = .ok)
-    (hwf : DictArgs calls)
+    (hwf : DictArgs calls) (hdom : DictsIn Dom calls)
     (hsize : (Writer.run (Codecs.env dumps loadsText loadsBytes) Codecs.cfg (some enc) t!"1.0" calls).1.out.length
       ≤ Reader.maxRead) :
     ∃ recs, Reader.readAll (Codecs.env dumps loadsText loadsBytes) Codecs.cfg chunk
@@ -123,7 +130,7 @@ theorem C01_run_concrete (hjson : JsonLaws dumps loadsText) (chunk : Nat) (hc : 
       recs.map (·.sec) = SecId.main :: secIds 1 calls ∧
       ∃ laws : ProgramLaws (Codecs.env dumps loadsText loadsBytes) Codecs.cfg enc calls,
         recs = expectedRecords (Codecs.env dumps loadsText loadsBytes) Codecs.cfg enc calls laws :=
-  run_concrete dumps loadsText loadsBytes hjson chunk hc enc calls hok hwf hsize
+  run_concrete dumps loadsText loadsBytes hjson chunk hc enc calls hok hwf hdom hsize
 
 end Concrete
 
@@ -182,24 +189,24 @@ def mockDumps : Json → EnvR Text
 def mockLoads (t : Text) : EnvR Json :=
   if t = tk ++ [10] then .ok jk else if t = t2 ++ [10] then .ok j2 else .err
 
-/-- **the JSON laws hold of the mock**, for every dict -/
-theorem mockJsonLaws : JsonLaws mockDumps mockLoads where
+/-- **the JSON laws hold of the mock**, for every dict (`Dom := fun _ => True`) -/
+theorem mockJsonLaws : JsonLaws (fun _ => True) mockDumps mockLoads where
   ascii := by
-    intro l text h
+    intro l text _ h
     unfold mockDumps at h
     split at h
     · cases h; decide
     · cases h; decide
     · cases h
   noCR := by
-    intro l text h
+    intro l text _ h
     unfold mockDumps at h
     split at h
     · cases h; decide
     · cases h; decide
     · cases h
   loads := by
-    intro l text h
+    intro l text _ h
     unfold mockDumps at h
     split at h
     · rename_i heq
@@ -279,7 +286,37 @@ theorem C01_run_concrete_instance :
   have hok := mprog_ok
   unfold menv at hsz hok ⊢
   obtain ⟨recs, h1, h2, h3, h4, -⟩ := C01_run_concrete mockDumps mockLoads (fun _ => .err) mockJsonLaws 7 (by decide)
-    t!"utf-8" mprog hok mprog_dicts hsz
+    t!"utf-8" mprog hok mprog_dicts (dictsIn_true _) hsz
+  exact ⟨recs, h1, h2, by rw [h3, mcontents_eq], by rw [h4, msecs_eq]⟩
+
+/-- the two dicts of the instance programs lie in the domain intended for CPython -/
+theorem jk_representable : Json.Representable (fun _ => True) jk := by
+  simp [jk, Json.Representable, Json.RepresentableItems, Text.increasing, Text.jsonStr, Text.noSurrogatePair]
+
+theorem j2_representable : Json.Representable (fun _ => True) j2 := by
+  simp [j2, Json.Representable, Json.RepresentableItems, Json.RepresentableList, Text.increasing, Text.lt,
+    Text.jsonStr, Text.noSurrogatePair]
+
+/-- the `dict` arguments of the instance program lie in `Json.Representable` -/
+theorem mprog_representable : DictsIn (Json.Representable (fun _ => True)) mprog := by
+  refine (dictsIn_iff _ _).mpr ?_
+  simp [mprog, dictArgIn, jk_representable, j2_representable]
+
+/-- **`C01_run_concrete` instantiated with the domain intended for CPython**, `Dom :=
+Json.Representable` (the laws of the mock restricted to it, `JsonLaws.mono`; the premise
+`DictsIn` is `mprog_representable`, no longer trivial) -/
+theorem C01_run_concrete_instance_dom :
+    ∃ recs, Reader.readAll menv Codecs.cfg 7
+        (Writer.run menv Codecs.cfg (some t!"utf-8") t!"1.0" mprog).1.out = (recs, .done) ∧
+      recs.length = 12 ∧ recs.map (·.content) = mcontents ∧ recs.map (·.sec) = msecs := by
+  have hsz : (Writer.run menv Codecs.cfg (some t!"utf-8") t!"1.0" mprog).1.out.length ≤ Reader.maxRead := by
+    rw [mprog_size]
+    decide
+  have hok := mprog_ok
+  unfold menv at hsz hok ⊢
+  obtain ⟨recs, h1, h2, h3, h4, -⟩ := C01_run_concrete mockDumps mockLoads (fun _ => .err)
+    (mockJsonLaws.mono (Dom' := Json.Representable (fun _ => True)) (fun _ _ => trivial)) 7 (by decide)
+    t!"utf-8" mprog hok mprog_dicts mprog_representable hsz
   exact ⟨recs, h1, h2, by rw [h3, mcontents_eq], by rw [h4, msecs_eq]⟩
 
 set_option maxRecDepth 65536 in
@@ -350,7 +387,7 @@ theorem C01_run_concrete_instance2 :
   have hok := mprog2_ok
   unfold menv at hsz hok ⊢
   obtain ⟨recs, h1, h2, h3, h4, -⟩ := C01_run_concrete mockDumps mockLoads (fun _ => .err) mockJsonLaws 7 (by decide)
-    t!"utf-8" mprog2 hok mprog2_dicts hsz
+    t!"utf-8" mprog2 hok mprog2_dicts (dictsIn_true _) hsz
   exact ⟨recs, h1, h2, by rw [h3, mcontents2_eq], by rw [h4, msecs2_eq]⟩
 
 set_option maxRecDepth 65536 in
